@@ -1,7 +1,6 @@
 (* Lemmas about model/Copyright.v (the [fixed] variant unless said otherwise). *)
 From V.model Require Import Base Deb822Lex Deb822Parse Glob Copyright CopyrightSpec.
 From V.proofs Require Import BaseP Deb822ParseP GlobP.
-Set Default Timeout 60.
 
 (* ---------------------------------------------------------------- strings *)
 Lemma list_eqb_N_eq (a : str) : forall b, str_eqb a b = true <-> a = b.
